@@ -1,12 +1,12 @@
 package harness
 
 import (
-	"verif.local/simrt"
 	"bytes"
 	"encoding/hex"
 	"fmt"
 	"os"
 	"path/filepath"
+	"verif.local/simrt"
 
 	"github.com/bartossh/Computantis/src/aeswrapper"
 	"github.com/bartossh/Computantis/src/fileoperations"
